@@ -76,7 +76,7 @@ def check(ctx, prog):
                     taken = isinstance(inner, Enum) and inner.variant == 'None'
                     ob = s.objs[tx]
                     ops = [e for e in s.trace[t0:] if e[0] == 'OP']
-                    foreign = [e for e in ops if e[1] not in (tx, mx)]
+                    foreign = [e for e in ops if e[1] not in (tx, mx) and not (e[1] == 'a_status' and str(e[2]).startswith('load'))]    # reading the status is harmless: the outcome claims below quantify over it
                     sends = [e for e in ops if e[1] == tx and e[2] == 'send']
                     claims = {'the_port_has_been_used_when_the_call_returns': taken,
                               'nothing_but_the_port_is_touched': not foreign and z3.is_true(z3.simplify(s.objs['a_status']['w'] == status)),
